@@ -213,7 +213,7 @@ func (cs *ContractSet) loadContractFile(path, pkgPath string) error {
 				cs.Units[curUnit] = curProps
 			case "methods":
 				fs := strings.Fields(arg)
-				if len(fs) == 0 || !strings.HasSuffix(fs[0], ".*") {
+				if len(fs) == 0 || !(strings.HasSuffix(fs[0], ".*") || strings.HasPrefix(fs[0], "*).")) {
 					return fmt.Errorf("%s: verif:methods (*T).*", where)
 				}
 				cur = &FuncContract{Key: fs[0], PkgPath: pkgPath, Loops: map[int]*LoopSpec{}, Unit: curUnit, Props: curProps, Where: where, Template: true}
